@@ -1,6 +1,7 @@
 mod g_adss;
 mod g_codec;
 mod g_star;
+mod g_wasm;
 mod g_fp;
 mod g_ggm;
 mod g_sharks;
@@ -33,6 +34,8 @@ fn main() {
         "C04" => g_star::gen_c04(seed, thorough, only, &mut out),
         "C05" => g_star::gen_c05(seed, thorough, only, &mut out),
         "C10" | "C11" => g_ggm::gen(seed, thorough, only, &mut out),
+        "C17" => g_wasm::gen_c17(seed, thorough, only, &mut out),
+        "C18" => g_wasm::gen_c18(seed, thorough, only, &mut out),
         "C08" => g_codec::gen(seed, thorough, only, &mut out),
         "C09" => {
           g_codec::gen(seed ^ 0x9, thorough, only, &mut out);
